@@ -45,6 +45,7 @@ pub fn configs(prop: &str) -> Vec<Config> {
             e("truncate_all"),
             e("lose_range_all"),
             e("remnants"),
+            e("cmp_forms"),
             c("storage", 40_000, 1_500_000),
             c("text", 40_000, 1_500_000),
             c("shapes", 30_000, 1_000_000),
